@@ -257,12 +257,18 @@ def _register(rec: Recorder, registry: Any, spec: dict[str, Any]) -> None:
             uid = call['uid']
             try:
                 atom = rec.next_atom(hid, uid)
-                result = await play(rec, call, atom, kw)
-                if subs:
+                if subs and spec.get('subs_before_outcome'):
+                    # a parent that declares its sub-handlers and THEN fails itself in the same invocation
                     for sub in subs:
                         _register_sub(rec, hid, sub, uid)
-                    if spec.get('explicit_execute'):
-                        await kopf.execute()
+                    result = await play(rec, call, atom, kw)
+                else:
+                    result = await play(rec, call, atom, kw)
+                    if subs:
+                        for sub in subs:
+                            _register_sub(rec, hid, sub, uid)
+                        if spec.get('explicit_execute'):
+                            await kopf.execute()
             except BaseException as e:
                 rec.ret(call, _outcome_name(e), exc=type(e).__name__)
                 raise
